@@ -52,13 +52,33 @@ def make(cfg):
 
 
 def grid(cfg):
+    if cfg.get("vals"):
+        return [fr(v) for v in cfg["vals"]]
     u = fr(cfg["u"])
     k = cfg["k"]
     return [u * i / k for i in range(k + 1)]
 
 
 def depth(cfg):
+    if cfg.get("D"):
+        return cfg["D"]
     return cfg["N"] if cfg["N"] is not None else cfg["H"]
+
+
+def nd_configs(tier):
+    """non-dyadic value alphabets with long runs of one value (rounding in running means / variances); used where the
+    oracle needs no exact arithmetic (C11, C13)"""
+    out = []
+    D = 8 if tier == "quick" else 11
+    worlds = [("1", ["0.1", "0.7"]), ("1.0101010101010102", ["0", "0.5050505050505051"]), ("1", ["0.3", "1"])]
+    meths = [("alpha_mart", "shrink_trunc", None, {}), ("alpha_mart", "shrink_trunc", None, {"eta": "0.75", "f": 1, "d": 10}),
+             ("betting_mart", None, "agrapa", {"lam": "0.5"}), ("alpha_mart", None, None, {"eta": "0.75"})]
+    for u, vals in worlds:
+        for N, H in ((D + 3, None), (None, D)):
+            for test, estim, bet, kw in meths:
+                out.append({"test": test, "estim": estim, "bet": bet, "kw": kw, "u": u, "t": "1/2", "N": N, "H": H, "k": len(vals) - 1,
+                            "vals": vals, "D": D, "ro": True})
+    return out
 
 
 def tolist(a, n):
@@ -72,7 +92,7 @@ def observe(cfg, xs):
     """run the real code on one prefix; xs = list of Fractions (exact dyadics)"""
     n = len(xs)
     x = np.array([float(v) for v in xs], dtype=float)
-    obs = {"p": None, "hist": None, "eta": None, "lam": None, "exc": None, "mutated": False}
+    obs = {"p": None, "hist": None, "eta": None, "lam": None, "exc": None, "mutated": False, "stateful": False, "int_differs": False}
     with warnings.catch_warnings():
         warnings.simplefilter("ignore")
         try:
@@ -82,6 +102,18 @@ def observe(cfg, xs):
             obs["p"] = float(p)
             obs["hist"] = [float(v) for v in np.asarray(h, dtype=float).ravel()]
             obs["mutated"] = not np.array_equal(xin, x)
+            # the same instance asked again (an Assertion keeps its test object from round to round): nothing may be
+            # remembered from the first evaluation
+            p2, h2 = nm.test(x.copy())
+            h2 = [float(v) for v in np.asarray(h2, dtype=float).ravel()]
+            same = (float(p2) == obs["p"] or (p2 != p2 and obs["p"] != obs["p"])) and len(h2) == len(obs["hist"]) and all(
+                a == b or (a != a and b != b) for a, b in zip(h2, obs["hist"]))
+            obs["stateful"] = not same
+            # a sample whose values are whole numbers may arrive as an integer array (0/1 ballots): same answer required
+            if all(v.denominator == 1 for v in xs):
+                p3, h3 = make(cfg).test(np.array([int(v) for v in xs], dtype=int))
+                h3 = [float(v) for v in np.asarray(h3, dtype=float).ravel()]
+                obs["int_differs"] = not (feq(float(p3), obs["p"]) and len(h3) == len(obs["hist"]) and all(feq(a, b) for a, b in zip(h3, obs["hist"])))
         except Exception as e:  # noqa
             obs["exc"] = f"{type(e).__name__}: {str(e)[:80]}"
         if cfg["test"] == "alpha_mart":
@@ -111,7 +143,7 @@ def build_trie(cfg, rec=None):
     if rec is not None:
         rec.state(len(trie))
         rec.trans(len(trie))
-        rec.evals(len(trie) * (2 if cfg["test"] in ("alpha_mart", "betting_mart") else 1))
+        rec.evals(len(trie) * (3 if cfg["test"] in ("alpha_mart", "betting_mart") else 2))
         rec.trace(k1 ** D)
     return trie
 
@@ -212,7 +244,7 @@ def configs(tier, ro_values=(True,)):
 def label(cfg):
     return (
         f"{cfg['test']}/{cfg.get('estim')}/{cfg.get('bet')} u={cfg['u']} t={cfg['t']} N={cfg['N']} "
-        f"H={cfg['H']} k={cfg['k']} ro={cfg.get('ro', True)} kw={cfg['kw']}"
+        f"H={cfg['H']} k={cfg['k']} ro={cfg.get('ro', True)} kw={cfg['kw']}" + (f" vals={cfg['vals']}" if cfg.get("vals") else "")
     )
 
 
